@@ -28,11 +28,11 @@ let handle (line : string) : string =
       let x = parse_path { s = path; i = 0 } in
       let d = parse_jv { s = data; i = 0 } in
       string_of_bytes (model_locate_rv (z_of_int (int_of_string mode)) (z_of_int (int_of_string ses)) x d)
-  | ["mutatel"; op; path; data; value] ->
+  | [("mutatel" | "mutatelk") as cmd; op; path; data; value] ->
       let x = parse_path { s = path; i = 0 } in
       let d = parse_jv { s = data; i = 0 } in
       let v = parse_jv { s = value; i = 0 } in
-      string_of_bytes (model_mutate_live (z_of_int (int_of_string op)) x d v)
+      string_of_bytes (model_mutate_live (cmd = "mutatelk") (z_of_int (int_of_string op)) x d v)
   | ["jpstr"; hex; delim] ->
       string_of_bytes (model_jpstr (bytes_of_hex hex) (List.hd (bytes_of_hex delim)))
   | ["write"; indent; mask; limit; data] ->
